@@ -342,14 +342,20 @@ CHECKS = {
                 "count/area objectives. Scratch sizing/reset, the "
                 "cross-objective agreement guard and int() conversion "
                 "before arithmetic on instance entries are decided "
-                "structurally.",
-        "design_ref": "DESIGN.md section 4, C02",
-        "note": "Decides D2.1-D2.5. Not decided: the skyline areas (only "
-                "their offset-free shape), validity of lower_bound(), "
-                "dominance between packings. Trusted: Packing shape "
-                "contract, N1.",
+                "structurally. Both skyline sweeps are decided by comparing "
+                "their scan step with the defining fold (running maximum of "
+                "the covering items with its right edge, running minimum of "
+                "later starts) on all comparison outcomes plus the segment "
+                "arithmetic and continuation; the kernels receive the "
+                "instance's bin width and height in this order.",
+        "design_ref": "DESIGN.md section 4, C02 and 10.2",
+        "note": "Decides D2.1-D2.6. Not decided: validity of lower_bound() "
+                "for the objectives with a secondary term, dominance "
+                "between packings. Trusted: Packing shape contract, N1.",
         "technique": "loop-reduction normal forms + polynomial coefficient "
-                     "extraction + sibling agreement across methods",
+                     "extraction + sibling agreement across methods + "
+                     "step-function agreement by case splitting "
+                     "(Fourier-Motzkin)",
     },
     "C17": {
         "text": "Ghost-variable (area ledger) rule on the instance decoder: "
